@@ -46,7 +46,7 @@ def near_miss(callee_json, k1, k2):
     return c, how
 
 
-def check_case(case):
+def check_generated(case):
     import exo.stdlib.scheduling as S
 
     prog = case["prog"]
@@ -396,12 +396,16 @@ def check_direct(case):
     return {"nontrivial": True, "digest": {"p": safe_str(p0)}, "classes": ["replaced", label], "sample": {"callee": safe_str(f), "before": safe_str(p0), "after": safe_str(p2), "kind": label}}
 
 
-def check_any(case):
+def check_case(case):
+    """dispatch on the case kind (the worker replays / shrinks through this entry point)"""
     if case.get("kind") == "instr":
         return check_instr_pair(case)
     if case.get("kind") == "direct":
         return check_direct(case)
-    return check_case(case)
+    return check_generated(case)
+
+
+check_any = check_case
 
 
 def case_strategy():
